@@ -722,9 +722,21 @@ Definition mr_instance (c : mcase) : bool :=
 Definition ignorable (a : attr) : bool :=
   is_attr NM_ROOT NS_ENC a || N.eqb (a_ns a) NS_ENV.
 
+Fixpoint from_ch (c : N) (s : str) : str :=
+  match s with
+  | [] => []
+  | x :: r => if N.eqb x c then s else from_ch c r
+  end.
+
+(* QName-valued attributes are compared by the QName they denote (the two
+   documents spell prefixes differently) *)
 Definition attr_eqb (a b : attr) : bool :=
-  N.eqb (a_ns a) (a_ns b) && N.eqb (a_name a) (a_name b) && str_eqb (a_val a) (a_val b) &&
-  opt_eqb qn_eqb (a_q a) (a_q b).
+  N.eqb (a_ns a) (a_ns b) && N.eqb (a_name a) (a_name b) &&
+  match a_q a, a_q b with
+  | Some q, Some q' => qn_eqb q q' && str_eqb (from_ch ch_lbr (a_val a)) (from_ch ch_lbr (a_val b))
+  | None, None => str_eqb (a_val a) (a_val b)
+  | _, _ => false
+  end.
 
 Fixpoint tree_eqb (a b : tree) {struct a} : bool :=
   match a, b with
@@ -740,8 +752,23 @@ Fixpoint tree_eqb (a b : tree) {struct a} : bool :=
          end) ks ks'
   end.
 
+(* the response element: the body child named like the only child of the in-line body *)
+Definition inline_of_named (fuel : nat) (h : heap) (b : nat) (ns nm : N) : option tree :=
+  let rc := build_catalog h (n_kids (getn h b)) [] [] in
+  match find (fun c => N.eqb (n_ns (getn h c)) ns && N.eqb (n_name (getn h c)) nm) (n_kids (getn h b)) with
+  | None => None
+  | Some r => inline fuel (snd rc) h r
+  end.
+
 Definition gen_ok (c : mcase) : bool :=
-  match inline_reply (c_fuel c) (c_out c) (c_out_body c), inline_reply (c_fuel c) (c_in c) (c_in_body c) with
-  | Some (Some a), Some (Some b) => list_eqb tree_eqb a b
-  | _, _ => false
+  match n_kids (getn (c_in c) (c_in_body c)) with
+  | [r] =>
+      let ns := n_ns (getn (c_in c) r) in
+      let nm := n_name (getn (c_in c) r) in
+      match inline_of_named (c_fuel c) (c_out c) (c_out_body c) ns nm,
+            inline_of_named (c_fuel c) (c_in c) (c_in_body c) ns nm with
+      | Some a, Some b => tree_eqb a b
+      | _, _ => false
+      end
+  | _ => false
   end.
